@@ -18,13 +18,7 @@ Definition th_facts1_b (g : shared) (T : list thread) (rp : pc) (th : thread) : 
   | PLoad => imp (op_locking th) (opt_none (g_await g))
   | PLoaded x | PAcq x => imp (op_locking th) ((x =? g_cur g) && opt_none (g_await g))
   | PBody x => s_open (getst g x) && imp (op_locking th) ((x =? g_cur g) && opt_none (g_await g))
-  | PGetRead x h => match cur_op th with
-                    | Some (OGet i) => (h_base (geth g h) <=? i) && (i - h_base (geth g h) <? length (h_ents (geth g h)))
-                    | _ => true end
-  | PApp1 x => (x =? g_cur g) && s_open (getst g x) && opt_none (g_await g)
-  | PApp2 x => (x =? g_cur g) && s_open (getst g x) && opt_none (g_await g) && (h_wr (tailh g x) =? length (h_ents (tailh g x)))
-  | PApp3 x => (x =? g_cur g) && s_open (getst g x) && opt_none (g_await g) && (h_wr (tailh g x) =? length (h_ents (tailh g x)))
-               && (h_syn (tailh g x) =? h_wr (tailh g x))
+  | PApp1 x | PApp2 x | PApp3 x => (x =? g_cur g) && s_open (getst g x) && opt_none (g_await g)
   | PTrig x => (x =? g_cur g) && s_open (getst g x) && opt_none (g_await g)
   | PSend x => (x =? g_cur g) && s_open (getst g x) && negb (g_trig g) && negb (opt_none (g_await g)) && negb (rot_pend rp)
   | PWaiting c | PRecvAwait c => (c <? length (g_chans g)) && (opt_is (g_await g) c || opt_none (g_await g))
@@ -32,7 +26,8 @@ Definition th_facts1_b (g : shared) (T : list thread) (rp : pc) (th : thread) : 
   | PM0 k => s_open (getst g (g_cur g)) && krot_b g T k
   | PM1 y k | PM2 y k | PM3 y k => (y =? g_cur g) && s_open (getst g y) && krot_b g T k
   | PM4 y f k => (S y =? g_cur g) && krot_b g T k
-  | PRel _ _ k | PLast _ _ k | PRun _ _ _ k => krot_b g T k
+  | PRel _ _ k | PLast _ _ k | PRun _ _ _ k =>
+      krot_b g T k && match k with KRetry => imp (op_locking th) (opt_none (g_await g)) | _ => true end
   | PC5 x | PC6 x => x =? g_cur g
   | PCSwapped x e => (S x =? g_cur g) && (e =? g_cur g) && s_open (getst g x)
   | PRT3 => (K g T <=? 1) && negb (opt_none (g_await g))
@@ -57,7 +52,6 @@ Definition inv1_b (w r : tid) (s : sys) : list nat :=
   chk 5 (all_t T (fun t th => imp (holds_mu th) (opt_is (g_mu g) t))) ++
   chk 6 (match g_mu g with Some t => match nth_error T t with Some th => holds_mu th | None => false end | None => true end) ++
   chk 7 (S (g_cur g) =? length (g_states g)) ++
-  chk 8 (forallb h_chain_b (g_hnds g)) ++
   chk 13 (nact T <=? 1) ++
   chk 14 (imp (negb (g_closed g)) (nact T =? 0)) ++
   chk 15 (Bool.eqb (g_trig_closed g) (4 <=? k)) ++
